@@ -1379,7 +1379,7 @@ def catalog_family(run, replay=None):
 # =====================================================================================================
 
 E2E_RULES = {'E2E-Verify': 'C03', 'E2E-Gate': 'C01', 'E2E-Leak': 'C01', 'E2E-Events': 'C10', 'E2E-Sf': 'C20', 'E2E-Pairings': 'C20', 'E2E-Pair': 'C04'}
-E2E_GUARDS = ["verify_needs_stored_key", "authenticate_checks_verified", "skip_originator", "sf_updated_on_unpair", "sf_from_pairings", "sf_updated_on_pair"]
+E2E_GUARDS = ["verify_needs_stored_key", "authenticate_checks_verified", "skip_originator", "sf_updated_on_unpair", "sf_from_pairings", "sf_updated_on_pair", "lookup_reads_the_store"]
 E2E_CODE_WEAK = ["sessions_of_removed_pairing_closed"]
 
 
